@@ -129,8 +129,13 @@ class BaseRollPass(DiskElementUnit, DeformationUnit, ABC):
         return list(self._subunits)
 
     def init_solve(self, in_profile: BaseProfile):
+        created = not self.out_profile
         super().init_solve(in_profile)
-        self.out_profile.cross_section = self.usable_cross_section
+        if created:
+            # first guess of the out cross-section.  A re-used out profile keeps the cross-section of the previous solution
+            # as start value like every other result: the values the pass and the profile remember (width, draught, ...)
+            # belong to THAT cross-section, not to the first guess.
+            self.out_profile.cross_section = self.usable_cross_section
 
     def reevaluate_cache(self):
         # the memoised geometry belongs to the values of the previous evaluation: drop it before the remembered hook
